@@ -1,5 +1,6 @@
 """C14 — Hooked timed waits honour the requested timeout (structural clauses)."""
 from rules.common import start
+from rules import wave2
 from rules import timed
 
 
@@ -17,4 +18,7 @@ def run(tier):
         timed.validate_rule(run, f, "C14-VALIDATE")
         timed.probe_rule(run, f, "C14-PROBE")
         timed.deadline_rule(run, f, "C14-DEADLINE")
+    # clauses added for the wave-2 seeds (rules/wave2.py; DESIGN 12a)
+    for _cfg, f in fx.items():
+        wave2.wide_scale_rule(run, f, "C14-SCALE-WIDTH")
     return run.finish()
